@@ -1,4 +1,5 @@
 import Pcore.Proofs.FilesModule
+import Pcore.Model.FilesCtor
 /-!
 C15, the three kinds of file loader `newFileBasedLoader` distinguishes — module name `` (global), the pseudo module name
 `environment` (global by special case: smart paths NOT module-name relative, `find` still filters qualified names by the
@@ -12,6 +13,61 @@ namespace Pcore.Files
     not global (seeded change C15-s8 broke this for the name `environment`) -/
 theorem spOf_relative (l : Lid) : (spOf l).moduleNameRelative = !isGlobalMod l.moduleName := by
   cases l <;> first | rfl | decide
+
+/-- the smart path `find` / `HasEntry` / `Discover` of the model consult IS the one `newFileBasedLoader` builds for the
+    data-type path -/
+theorem spOf_is_ctor (l : Lid) :
+    newLoaderPaths (spOf l).root l.moduleName ["puppetDataType"] = .ok [spOf l] := by
+  cases l <;> rfl
+
+/-- every smart path the constructor builds carries the flag `!isGlobal`, whatever the list of path types -/
+theorem newLoaderPaths_flag (root : Path) (mod : String) : ∀ (pts : List String) (sps : List SmartPath),
+    newLoaderPaths root mod pts = .ok sps →
+      sps.length = pts.length ∧ ∀ sp ∈ sps, sp.moduleNameRelative = !isGlobalMod mod ∧ sp.moduleName = mod ∧ sp.root = root
+  | [], sps, h => by
+    simp only [newLoaderPaths] at h
+    cases h
+    exact ⟨rfl, fun _ h => by cases h⟩
+  | pt :: rest, sps, h => by
+    simp only [newLoaderPaths, newSmartPath] at h
+    cases hf : smartPathFactory pt with
+    | none => rw [hf] at h; cases h
+    | some re =>
+      rw [hf] at h
+      simp only at h
+      cases hr : newLoaderPaths root mod rest with
+      | error e => rw [hr] at h; cases h
+      | ok sps' =>
+        rw [hr] at h
+        simp only [Except.ok.injEq] at h
+        subst h
+        obtain ⟨hl, hall⟩ := newLoaderPaths_flag root mod rest sps' hr
+        refine ⟨by simp [hl], ?_⟩
+        intro sp hsp
+        rcases List.mem_cons.mp hsp with rfl | hsp'
+        · exact ⟨rfl, rfl, rfl⟩
+        · exact hall sp hsp'
+
+/-- the constructor refuses exactly the lists that hold a path type without a factory -/
+theorem newLoaderPaths_ok_iff (root : Path) (mod : String) : ∀ pts : List String,
+    (∃ sps, newLoaderPaths root mod pts = .ok sps) ↔ ∀ pt ∈ pts, pt = "puppetDataType"
+  | [] => by simp [newLoaderPaths]
+  | pt :: rest => by
+    have ih := newLoaderPaths_ok_iff root mod rest
+    simp only [newLoaderPaths, newSmartPath, List.mem_cons, forall_eq_or_imp]
+    by_cases hpt : pt = "puppetDataType"
+    · subst hpt
+      simp only [smartPathFactory, true_and]
+      rw [← ih]
+      cases newLoaderPaths root mod rest with
+      | error e => simp
+      | ok sps => simp
+    · have hf : smartPathFactory pt = none := by
+        unfold smartPathFactory
+        split
+        · exact absurd rfl hpt
+        · rfl
+      simp [hf, hpt]
 
 /-- `find` of loader `l` reaches the index with this name (the switch part lets it through) -/
 def Routed (l : Lid) (name : Name) : Prop :=
